@@ -176,6 +176,8 @@ def fresh_ids(t, used, start=10000):
 
 
 ZOO = {
+    # ambiguous on purpose: "1+2+3" has two derivations, so the tree a caller hands in need not be the parser's first one
+    "amb": {"<start>": ["<e>"], "<e>": ["<e>+<e>", "<d>", "(<e>)"], "<d>": ["1", "2", "3"]},
     "lang": {"<start>": ["<stmt>"], "<stmt>": ["<assgn> ; <stmt>", "<assgn>"], "<assgn>": ["<var> := <rhs>"],
              "<rhs>": ["<var>", "<digit>"], "<var>": list("abc"), "<digit>": list("012")},
     "blk": {"<start>": ["<block>"], "<block>": ["{<stmts>}"], "<stmts>": ["<stmt><stmts>", "<stmt>"],
